@@ -1,10 +1,11 @@
+\* every deviation whose finding is still OPEN in known-findings.json (repaired ones stay FALSE: they suppress nothing)
 SPECIFICATION Spec
 CONSTANTS
   Classify = TRUE
-  KF_NestedAligned = TRUE
-  KF_MapSlices = TRUE
-  KF_FixedLen = TRUE
-  KF_ArrayWalk = TRUE
+  KF_NestedAligned = FALSE
+  KF_MapSlices = FALSE
+  KF_FixedLen = FALSE
+  KF_ArrayWalk = FALSE
   KF_Checksum = TRUE
 INVARIANT NotAccepted
 CHECK_DEADLOCK FALSE
